@@ -88,7 +88,9 @@ Print Assumptions C03_der_output_reads_deep.
 
 (* CER: the encoder's output IS the reference's canonical CER encoding (whatever options the caller
    passes), it reads back to the same abstract value, and it meets the canonical-form rules
-   (indefinite length exactly for constructed encodings, 1000-octet segments, FF for TRUE) *)
+   (indefinite length exactly for constructed encodings, full 1000-octet segments and a last non-empty
+   one, FF for TRUE); cer_tags_ok: no UNIVERSAL string tag number is put on a non-string by IMPLICIT tagging
+   (the untyped shape check recognises strings by their universal tag) *)
 Theorem C03_cer_is_reference_simple : forall T v d k b,
   der_ref_val T v = true -> ReaderModel.no_f01 T = true -> encode CER d k T v = Ok b -> X690.cer T v = Some b.
 Proof. exact cer_is_reference_simple. Qed.
@@ -102,8 +104,7 @@ Proof. exact cer_output_reads_simple. Qed.
 Print Assumptions C03_cer_output_reads_simple.
 
 Theorem C03_cer_output_canonical : forall T v d k b,
-  der_ref_val T v = true -> ReaderModel.no_f01 T = true -> eoc_safe T = true ->
-  (indef_base (base_of T) = true \/ (length b <= 1001)%nat) ->
+  der_ref_val T v = true -> ReaderModel.no_f01 T = true -> eoc_safe T = true -> cer_tags_ok T = true ->
   encode CER d k T v = Ok b -> cer_canonical b = true.
 Proof. exact cer_output_canonical. Qed.
 Print Assumptions C03_cer_output_canonical.
